@@ -5,7 +5,7 @@ import ast
 from typing import Dict, List, Optional, Set, Tuple
 
 from ..core import AnalysisError, CheckResult, ClassInfo, Finding, ModuleInfo, Repo, func_params, norm, walk_no_nested
-from .c11 import INIT_METHODS, MUTATORS, STORE_EXCEPTIONS, _derived_dicts, _store_target, attr_aliases
+from .c11 import INIT_METHODS, MUTATORS, STORE_EXCEPTIONS, _derived_dicts, _store_target, attr_aliases, param_attr_aliases
 
 LEVEL = "other"
 EXHAUSTIVE = True
@@ -109,11 +109,12 @@ def shared_writes(repo: Repo, res: CheckResult) -> None:
             continue
         m = ci.module
         derived = _derived_dicts(repo, ci)
+        pal = param_attr_aliases(ci)
         for mname, fn in ci.methods.items():
             if mname in INIT_METHODS:
                 continue
             stores = []
-            al = attr_aliases(fn)
+            al = {**attr_aliases(fn), **pal.get(mname, {})}
             for node in ast.walk(fn):
                 st = _store_target(node, al)
                 if st is None or st[0] not in ("self", "cls"):
@@ -159,6 +160,17 @@ def shared_writes(repo: Repo, res: CheckResult) -> None:
                                 f"{life or 'shared'}-lifetime object is modified after construction by `{text}` without a lock "
                                 "and it is not an insert into a per-retort cache: concurrent requests observe half-made "
                                 "state", node.lineno))
+            # the same entry written twice in one method: between the two stores other threads read the first value (a bare
+            # function that is wrapped a moment later)
+            seen_items: Dict[str, ast.AST] = {}
+            for node, (root, attr, is_item, text) in stores:
+                if is_item and attr in derived and isinstance(node, ast.Assign) and isinstance(node.targets[0], ast.Subscript):
+                    key = f"{attr}[{norm(node.targets[0].slice)}]"
+                    if key in seen_items and not _under_lock(m, node):
+                        res.add(Finding("C12", "RACE.entry-published-twice", m.rel, f"{ci.name}.{mname}", key,
+                                        f"`{text}` replaces an entry of the shared cache that the same method stored a moment before: "
+                                        "in between, other threads use (and may keep) the first, unfinished value", node.lineno))
+                    seen_items[key] = node
             # a method that inserts into two different shared caches is a multi-step update
             cache_attrs = {st[1] for _, st in stores if st[2] and st[1] in derived}
             if len(cache_attrs) > 1:
